@@ -44,7 +44,7 @@ def _work(args):
                 returns=res.returns, raises=res.raises, dropped=sorted(res.dropped),
                 assumptions=sorted(res.assumptions), inlined=sorted(res.inlined), file=res.file, line=res.line,
                 digest=res.digest, seconds=round(res.seconds, 3), notes=sorted(res.notes),
-                unreached=list(res.unreached))
+                unreached=list(res.unreached) + list(res.vacuous))
 
 
 def run_property(pid, jobs=None, only=None):
